@@ -18,6 +18,7 @@ namespace rt {
 int  spawn(std::function<void()> fn);   // start a managed thread, returns its id (>=1)
 void join(int tid);                      // block (schedulably) until it finished
 int  self();                             // managed thread id, -1 if unmanaged
+int  alive();                            // managed threads of this execution that have not finished (incl. the caller)
 void obs(const char* fmt, ...) __attribute__((format(printf, 1, 2)));  // append to the observable history
 void fail(const char* fmt, ...) __attribute__((format(printf, 1, 2))); // property monitor fired
 void point(const char* what);            // an explicit scheduling point (no memory effect)
